@@ -34,6 +34,7 @@ class Parent(HasTraits):
     pp_r = Int(4)
     _t = Int(6)
     pp_t = Int(66)
+    nl = Int(7)
 
 
 class Child(HasTraits):
@@ -45,6 +46,7 @@ class Child(HasTraits):
     q = DelegatesTo("parent", prefix="pre_*")
     r = DelegatesTo("parent", prefix="*")
     t = DelegatesTo("parent", prefix="_*")      # one-character prefix
+    nl = DelegatesTo("parent", listenable=False)
 
 
 class PChild(HasTraits):
@@ -55,6 +57,7 @@ class PChild(HasTraits):
     q = PrototypedFrom("parent", prefix="pre_*")
     r = PrototypedFrom("parent", prefix="*")
     t = PrototypedFrom("parent", prefix="_*")
+    nl = PrototypedFrom("parent", listenable=False)
 
 
 class PChild2(HasTraits):
@@ -79,7 +82,11 @@ class Top(HasTraits):
     w = DelegatesTo("middle", prefix="width")
 
 
-ALL_ATTRS = {"x": "x", "xx": "y", "q": "pre_q", "r": "pp_r", "t": "_t"}
+ALL_ATTRS = {"x": "x", "xx": "y", "q": "pre_q", "r": "pp_r", "t": "_t",
+             "nl": "nl"}
+#: listenable=False: values mirror the target, forwarding of notifications
+#: is not promised
+NOLISTEN = {"nl"}
 ATTRS = dict(ALL_ATTRS)
 VALS = [5, 6, "bad"]
 
@@ -104,7 +111,7 @@ class World:
         self.c = cls(parent=self.parents[0])
         self.cur = 0
         self.P = [{"x": 1, "y": 2, "pre_q": 3, "pp_r": 4, "_t": 6,
-                   "pp_t": 66} for _ in range(2)]
+                   "pp_t": 66, "nl": 7} for _ in range(2)]
         self.L = {}
         self.hook(self.c, list(self.attrs))
 
@@ -228,7 +235,7 @@ def step(ctx, w, ev, hist, check):
         w.P[i][tgt] = v
         changed = old != v
         for a, t in ATTRS.items():
-            if t != tgt:
+            if t != tgt or a in NOLISTEN:
                 continue
             linked = (i == w.cur) and (a not in w.L)
             for mech in ("otc", "obs"):
